@@ -45,6 +45,7 @@ import (
 	"github.com/hyperledger/aries-framework-go/component/kmscrypto/util/cryptoutil"
 	kmsapi "github.com/hyperledger/aries-framework-go/spi/kms"
 	"github.com/hyperledger/aries-framework-go/spi/secretlock"
+	spistorage "github.com/hyperledger/aries-framework-go/spi/storage"
 )
 
 var kmsKeyTypes = map[string]kmsapi.KeyType{
@@ -65,6 +66,7 @@ type recKMSStore struct {
 	puts     [][2]string // (id, value)
 	mutCalls int
 	freezeAt int // -1 = never; otherwise mutating call number (0-based) from which on everything fails
+	failNextGet bool // the next read fails with a transient error (not "not found")
 }
 
 var errFrozen = errors.New("store frozen (simulated crash)")
@@ -81,6 +83,10 @@ func (s *recKMSStore) Put(id string, v []byte) error {
 }
 
 func (s *recKMSStore) Get(id string) ([]byte, error) {
+	if s.failNextGet {
+		s.failNextGet = false
+		return nil, errors.New("transient read fault")
+	}
 	v, ok := s.data[id]
 	if !ok {
 		return nil, kmscomp.ErrKeyNotFound
@@ -97,6 +103,39 @@ func (s *recKMSStore) Delete(id string) error {
 	delete(s.data, id)
 	return nil
 }
+
+// c05Prov / c05Store: an spi/storage provider over the recording store, so that the framework's own adapter
+// (kms.NewAriesProviderWrapper, which turns storage errors into key manager errors) sits between localkms and the store as
+// it does in an agent
+type c05Prov struct{ rec *recKMSStore }
+
+func (p *c05Prov) OpenStore(string) (spistorage.Store, error)                 { return &c05Store{p.rec}, nil }
+func (p *c05Prov) SetStoreConfig(string, spistorage.StoreConfiguration) error { return nil }
+func (p *c05Prov) GetStoreConfig(string) (spistorage.StoreConfiguration, error) {
+	return spistorage.StoreConfiguration{}, nil
+}
+func (p *c05Prov) GetOpenStores() []spistorage.Store { return nil }
+func (p *c05Prov) Close() error                       { return nil }
+
+type c05Store struct{ rec *recKMSStore }
+
+func (s *c05Store) Put(k string, v []byte, _ ...spistorage.Tag) error { return s.rec.Put(k, v) }
+func (s *c05Store) Get(k string) ([]byte, error) {
+	v, err := s.rec.Get(k)
+	if errors.Is(err, kmscomp.ErrKeyNotFound) {
+		return nil, spistorage.ErrDataNotFound
+	}
+	return v, err
+}
+func (s *c05Store) GetTags(string) ([]spistorage.Tag, error) { return nil, errors.New("not used") }
+func (s *c05Store) GetBulk(...string) ([][]byte, error)      { return nil, errors.New("not used") }
+func (s *c05Store) Query(string, ...spistorage.QueryOption) (spistorage.Iterator, error) {
+	return nil, errors.New("not used")
+}
+func (s *c05Store) Delete(k string) error              { return s.rec.Delete(k) }
+func (s *c05Store) Batch([]spistorage.Operation) error { return errors.New("not used") }
+func (s *c05Store) Flush() error                       { return nil }
+func (s *c05Store) Close() error                       { return nil }
 
 // a store whose reads fail while failReads is set (writes go through): "stored, but could not be read back"
 type flakyKMSStore struct {
@@ -219,7 +258,11 @@ func kmsOpen(kind string, st *recKMSStore, masterKey []byte, pass, cipher string
 			return nil, cipher, err
 		}
 	}
-	k, err := localkms.New("local-lock://verif", kmsProv{st, &recLock{Service: lock}})
+	wrapped, err := kmscomp.NewAriesProviderWrapper(&c05Prov{st})
+	if err != nil {
+		return nil, cipher, err
+	}
+	k, err := localkms.New("local-lock://verif", kmsProv{wrapped, &recLock{Service: lock}})
 	return k, cipher, err
 }
 
@@ -471,6 +514,7 @@ func kmsRun(input string, c06 bool) string {
 	if len(parts) == 3 && strings.HasPrefix(parts[2], "crash=") {
 		crash, _ = strconv.Atoi(strings.TrimPrefix(parts[2], "crash="))
 	}
+	rfault := len(parts) == 3 && parts[2] == "rfault=1"
 	lockOutputs = nil
 	kmsImportCounter = 0
 	masterKey := bytes.Repeat([]byte{0x5a}, 32)
@@ -497,6 +541,9 @@ func kmsRun(input string, c06 bool) string {
 		f := strings.Split(op, " ")
 		if crash >= 0 && oi == len(ops)-1 {
 			st.freezeAt = st.mutCalls + crash
+		}
+		if rfault && oi == len(ops)-1 {
+			st.failNextGet = true // the first read of the last call meets a transient storage fault
 		}
 		o := "err"
 		switch f[0] {
@@ -852,6 +899,13 @@ func kmsGen(r *Rng, tier string, c06 bool) []string {
 			}
 		}
 		s := locks[i%3] + "|" + strings.Join(ops, ";")
+		if c06 && r.N(8) == 0 && nk > 0 {
+			// the existence probe of a named import meets a transient read fault: the import fails, the key that holds the
+			// id stays what it was
+			last := r.Pick([]string{"import ed25519 dupid", "import p256 dupid", "import ed25519 id", "import p256 noid"})
+			out = append(out, locks[i%3]+"|"+strings.Join(append(ops, last), ";")+"|rfault=1")
+			continue
+		}
 		if c06 && r.N(3) > 0 {
 			// make the last op a mutating one and crash inside it
 			last := []string{"create " + r.Pick(kts), fmt.Sprintf("rotate %d", r.N(nk)), "import p256 noid", "import ed25519 id"}[r.N(4)]
